@@ -11,6 +11,7 @@ import (
 	"database/sql"
 	"fmt"
 	"sort"
+	"strconv"
 	"strings"
 
 	"verifharness/internal/hx"
@@ -254,9 +255,13 @@ func isTextType(t string) bool {
 func (g *sqGen) defaultFor(typ string) string {
 	switch {
 	case isIntType(typ) || typ == "numeric" || typ == "decimal(10,2)":
-		return hx.Pick(g.r, []string{"0", "1", "42", "-7", "(1 + 1)", "((2 * 3))", "(abs(-4))"})
+		return hx.Pick(g.r, []string{"0", "1", "42", "-7", "(1 + 1)", "((2 * 3))", "(abs(-4))", "1.0", "1.50", "007", "+1", "1e3", "-3.0"})
 	case typ == "real":
 		return hx.Pick(g.r, []string{"0.5", "1.25", "-3.0"})
+	case typ == "json" || typ == "any":
+		// (a quoted 'NULL' on a column that Atlas does not treat as text is written to HCL as the string "NULL",
+		// which evaluates to the NULL keyword: an ambiguity of the HCL form, kept out of the generator)
+		return hx.Pick(g.r, []string{"'x'", "''", "'it''s'", "'hello world'", "'100%'", "NULL", "'5'", "'x''00'"})
 	case isTextType(typ):
 		return hx.Pick(g.r, []string{"'x'", "''", "'it''s'", "'hello world'", "'100%'", "NULL", "'NULL'", "'5'", "'x''00'"})
 	case typ == "boolean":
@@ -896,6 +901,12 @@ func catalog(db *sql.DB) ([]string, error) {
 			}
 			if !strings.HasSuffix(strings.TrimSpace(up), "STRICT") {
 				typ = affinity(typ) // Atlas compares (and SQLite treats) declared types by their affinity
+			}
+			// numeric literal defaults of non-text columns are the same value however they are written
+			if affinity(typ) != "TEXT" && affinity(typ) != "BLOB" {
+				if f, err := strconv.ParseFloat(dflt, 64); err == nil {
+					dflt = strconv.FormatFloat(f, 'g', -1, 64)
+				}
 			}
 			return fmt.Sprintf("column %s.%s type=%s notnull=%d default=%s pk=%d hidden=%d", t.name, name, strings.ToLower(typ), nn, dflt, pk, hidden)
 		}); err != nil {
